@@ -215,6 +215,26 @@ Lemma rule_group_path_ok : rule_group_path =
   "rule_group".
 Proof. reflexivity. Qed.
 
+Lemma minKVRangeLimit_ok : minKVRangeLimit =
+  (100)%Z.
+Proof. reflexivity. Qed.
+
+Lemma body_Storage_LoadRangeByPrefix_ok : body_Storage_LoadRangeByPrefix =
+  ["nextKey := prefix"; "endKey := clientv3.GetPrefixRangeEnd(prefix)"; "for { keys, values, err := s.LoadRange(nextKey, endKey, minKVRangeLimit) if err != nil { return err } for i := range keys { f(strings.TrimPrefix(keys[i], prefix), values[i]) } if len(keys) < minKVRangeLimit { return nil } nextKey = keys[len(keys)-1] + ""\x00"" }"].
+Proof. reflexivity. Qed.
+
+Lemma body_memoryKV_LoadRange_ok : body_memoryKV_LoadRange =
+  ["kv.RLock()"; "defer kv.RUnlock()"; "keys := make([]string, 0, limit)"; "values := make([]string, 0, limit)"; "kv.tree.AscendRange(memoryKVItem{key, """"}, memoryKVItem{endKey, """"}, func(item btree.Item) bool { keys = append(keys, item.(memoryKVItem).key) values = append(values, item.(memoryKVItem).value) if limit > 0 { return len(keys) < limit } return true })"; "return keys, values, nil"].
+Proof. reflexivity. Qed.
+
+Lemma body_etcdKVBase_LoadRange_ok : body_etcdKVBase_LoadRange =
+  ["key = strings.Join([]string{kv.rootPath, key}, ""/"")"; "endKey = strings.Join([]string{kv.rootPath, endKey}, ""/"")"; "withRange := clientv3.WithRange(endKey)"; "withLimit := clientv3.WithLimit(int64(limit))"; "resp, err := etcdutil.EtcdKVGet(kv.client, key, withRange, withLimit)"; "if err != nil { return nil, nil, err }"; "keys := make([]string, 0, len(resp.Kvs))"; "values := make([]string, 0, len(resp.Kvs))"; "for _, item := range resp.Kvs { keys = append(keys, strings.TrimPrefix(strings.TrimPrefix(string(item.Key), kv.rootPath), ""/"")) values = append(values, string(item.Value)) }"; "return keys, values, nil"].
+Proof. reflexivity. Qed.
+
+Lemma load_next_key_ok : load_next_key =
+  [":= prefix"; "= keys[len(keys)-1] + ""\x00"""].
+Proof. reflexivity. Qed.
+
 Lemma body_Storage_SaveRule_ok : body_Storage_SaveRule =
   ["return s.SaveJSON(rulesPath, ruleKey, rule)"].
 Proof. reflexivity. Qed.
